@@ -8,7 +8,7 @@
    comments are kept and are invisible when they are ignored; after the last item the reader reports
    the end of the input.  Any number of lines, no bound. *)
 From Coq Require Import List Bool Arith Ascii String NArith Lia.
-From FV Require Import SplitLine Text Reader ReaderLaws ReaderJoin ReaderItem SemiLaws.
+From FV Require Import SplitLine Text Reader ReaderLaws ReaderJoin ReaderItem ReaderJoinQ SemiLaws.
 Import ListNotations.
 Close Scope string_scope.
 
@@ -38,6 +38,8 @@ Inductive lay :=
 | LOne (line : text) (lab : option N) (nm : option text) (p : text)
 | LOneC (line : text) (lab : option N) (nm : option text) (p c : text)      (* ... with a trailing comment *)
 | LCont (line : text) (lab : option N) (nm : option text) (p1 : text) (ms : list (text * text)) (bn pn : text)
+| LContQ (line : text) (lab : option N) (nm : option text) (p1 : text) (q1 : option ascii)
+         (ms : list (text * text * option ascii)) (bn pn : text)   (* ... in any character context *)
 | LContC (line : text) (lab : option N) (nm : option text) (p1 : text) (es : list celem) (bn pn : text)
 | LSemi (line : text) (lab : option N) (nm : option text) (p1 : text) (rest : list text)
         (os : list (text * option N * option text))
@@ -53,6 +55,7 @@ Definition phys (l : lay) : list text :=
   | LOne line _ _ _ => [line]
   | LOneC line _ _ _ _ => [line]
   | LCont line _ _ _ ms bn pn => line :: mids ms ++ [last_line bn pn]
+  | LContQ line _ _ _ _ ms bn pn => line :: mids3 ms ++ [last_line bn pn]
   | LContC line _ _ _ es bn pn => line :: map phys_e es ++ [last_line bn pn]
   | LSemi line _ _ _ _ _ => [line]
   | LCom b c => [b ++ bang :: c]
@@ -76,6 +79,13 @@ Definition good (l : lay) : Prop :=
       stripped (last_line bn pn) /\
       strip (p1 ++ List.concat (map snd ms) ++ pn) <> [] /\
       mem_char ";"%char (strip (p1 ++ List.concat (map snd ms) ++ pn)) = false
+  | LContQ line lab nm p1 q1 ms bn pn =>
+      stripped line /\ line <> [] /\ starts_with ["#"%char] (lstrip line) = false /\
+      (exists l1, extract_label line = (lab, l1) /\ extract_construct_name l1 = (nm, p1 ++ [amp])) /\
+      amp_free p1 /\ nocom (p1 ++ [amp]) None q1 /\ chain_ok q1 ms bn pn /\
+      blanks bn /\ amp_free pn /\ pn <> [] /\ negb (is_blank pn) = true /\ stripped (last_line bn pn) /\
+      strip (p1 ++ texts3 ms ++ pn) <> [] /\
+      mem_char ";"%char (strip (p1 ++ texts3 ms ++ pn)) = false
   | LContC line lab nm p1 es bn pn =>
       stripped line /\ line <> [] /\ starts_with ["#"%char] (lstrip line) = false /\
       (exists l1, extract_label line = (lab, l1) /\ extract_construct_name l1 = (nm, p1 ++ [amp])) /\
@@ -108,6 +118,8 @@ Definition rawp (l : lay) (lc : nat) : ritem * list ritem :=
   | LOneC _ lab nm p c => (RLine (strip p) lab nm (S lc) (S lc), [RComment (bang :: c) (S lc) (S lc) true])
   | LCont _ lab nm p1 ms _ pn =>
       (RLine (strip (p1 ++ List.concat (map snd ms) ++ pn)) lab nm (S lc) (S (S lc) + List.length ms), [])
+  | LContQ _ lab nm p1 _ ms _ pn =>
+      (RLine (strip (p1 ++ texts3 ms ++ pn)) lab nm (S lc) (S (S lc) + List.length ms), [])
   | LContC _ lab nm p1 es _ pn =>
       (RLine (strip (p1 ++ etext es ++ pn)) lab nm (S lc) (S (S lc) + List.length es), ecoms es (S (S lc)))
   | LSemi _ lab nm p1 rest _ => (RLine (join_semi (p1 :: rest)) lab nm (S lc) (S lc), [])
@@ -344,7 +356,7 @@ Lemma gsi_lay l rest lc : good l ->
   get_source_item (stt (phys l ++ rest) lc [])
   = (Some (fst (rawp l lc)), stt rest (lc + List.length (phys l)) (snd (rawp l lc))).
 Proof.
-  destruct l as [line lab nm p|line lab nm p cm|line lab nm p1 ms bn pn|line lab nm p1 es bn pn|line lab nm p1 rs os|b c|];
+  destruct l as [line lab nm p|line lab nm p cm|line lab nm p1 ms bn pn|line lab nm p1 q1 ms bn pn|line lab nm p1 es bn pn|line lab nm p1 rs os|b c|];
     cbn [good phys rawp fst snd].
   - intros [SL [NE [NH [[l1 [EL EN]] [P [NS SEMI]]]]]]. cbn [app List.length]. rewrite Nat.add_1_r.
     apply (gsi_one line lab nm p l1 rest lc SL NE NH EL EN P NS).
@@ -354,6 +366,10 @@ Proof.
     cbn [app List.length]. rewrite <- app_assoc. cbn [app].
     rewrite (item_of_continued_statement ign line lab l1 nm p1 ms bn pn rest lc [] SL NE NH EL EN P1 OK Bn Pn PNE NB SLL NS).
     f_equal. f_equal. rewrite app_length, mids_length. cbn [List.length]. lia.
+  - intros [SL [NE [NH [[l1 [EL EN]] [Ap1 [NC1 [CH [Bn [Apn [PNE [NB [SLL [NS SEMI]]]]]]]]]]]]].
+    cbn [app List.length]. rewrite <- app_assoc. cbn [app].
+    rewrite (item_of_continued_statement_q ign line lab l1 nm p1 q1 ms bn pn rest lc [] SL NE NH EL EN Ap1 NC1 CH Bn Apn PNE NB SLL NS).
+    f_equal. f_equal. rewrite app_length, mids3_length. cbn [List.length]. lia.
   - intros [SL [NE [NH [[l1 [EL EN]] [P1 [G [Bn [Pn [PNE [NB [SLL [NS SEMI]]]]]]]]]]]].
     cbn [app List.length]. rewrite <- app_assoc. cbn [app].
     rewrite (gsi_contc line lab l1 nm p1 es bn pn rest lc SL NE NH EL EN P1 G Bn Pn PNE NB SLL NS).
@@ -396,12 +412,14 @@ Lemma split_lay l lc : good l ->
   /\ pend_ok (fst (produced l lc)) /\ Forall pend_ok (snd (produced l lc))
   /\ kept (fst (produced l lc)) = kept (fst (rawp l lc)).
 Proof.
-  destruct l as [line lab nm p|line lab nm p cm|line lab nm p1 ms bn pn|line lab nm p1 es bn pn|line lab nm p1 rs os|b c|];
+  destruct l as [line lab nm p|line lab nm p cm|line lab nm p1 ms bn pn|line lab nm p1 q1 ms bn pn|line lab nm p1 es bn pn|line lab nm p1 rs os|b c|];
     cbn [good rawp produced fst snd].
   - intros [_ [_ [_ [_ [_ [_ SEMI]]]]]]. repeat split; [apply split_ok_plain; exact SEMI|exact SEMI|constructor].
   - intros [_ [_ [_ [_ [_ [_ [_ SEMI]]]]]]]. repeat split; [apply split_ok_plain; exact SEMI|exact SEMI|].
     constructor; [exact I|constructor].
   - intros [_ [_ [_ [_ [_ [_ [_ [_ [_ [_ [_ [_ SEMI]]]]]]]]]]]].
+    repeat split; [apply split_ok_plain; exact SEMI|exact SEMI|constructor].
+  - intros [_ [_ [_ [_ [_ [_ [_ [_ [_ [_ [_ [_ [_ SEMI]]]]]]]]]]]]].
     repeat split; [apply split_ok_plain; exact SEMI|exact SEMI|constructor].
   - intros [_ [_ [_ [_ [_ [_ [_ [_ [_ [_ [_ [_ SEMI]]]]]]]]]]]].
     repeat split; [apply split_ok_plain; exact SEMI|exact SEMI|apply ecoms_pend].
@@ -596,7 +614,7 @@ Proof. induction l as [|x r IH]; [reflexivity|]. cbn [keep filter]. fold (keep r
 Lemma item_length l lc : good l -> List.length (item l lc) <= List.length (List.concat (phys l)) + List.length (phys l).
 Proof.
   intros G. unfold item. pose proof (keep_length (fst (produced l lc) :: snd (produced l lc))) as K. cbn [List.length] in K.
-  destruct l as [line lab nm p|line lab nm p cm|line lab nm p1 ms bn pn|line lab nm p1 es bn pn|line lab nm p1 rs os|b c|];
+  destruct l as [line lab nm p|line lab nm p cm|line lab nm p1 ms bn pn|line lab nm p1 q1 ms bn pn|line lab nm p1 es bn pn|line lab nm p1 rs os|b c|];
     cbn [produced rawp snd phys List.length] in *; try lia.
   - destruct G as [_ [NE _]]. cbn [List.concat]. rewrite app_nil_r. destruct line; [contradiction|cbn [List.length] in *; lia].
   - rewrite app_length, map_length in *. cbn [List.length] in *. pose proof (ecoms_length es (S (S lc))). lia.
@@ -700,7 +718,9 @@ Lemma stmt_texts_items ign1 ign2 : forall ls lc lc',
 Proof.
   induction ls as [|l r IH]; intros lc lc'; [reflexivity|].
   cbn [items filter]. rewrite stmt_texts_app. unfold item. rewrite stmt_texts_keep.
-  destruct l as [line lab nm p|line lab nm p cm|line lab nm p1 ms bn pn|line lab nm p1 es bn pn|line lab nm p1 rs os|b c|]; cbn [is_stmt map].
+  destruct l as [line lab nm p|line lab nm p cm|line lab nm p1 ms bn pn|line lab nm p1 q1 ms bn pn|line lab nm p1 es bn pn|line lab nm p1 rs os|b c|]; cbn [is_stmt map].
+  - cbn [items]. rewrite stmt_texts_app. unfold item. rewrite stmt_texts_keep. cbn [produced rawp fst snd strip_comments].
+    cbn [stmt_texts flat_map app]. f_equal. apply IH.
   - cbn [items]. rewrite stmt_texts_app. unfold item. rewrite stmt_texts_keep. cbn [produced rawp fst snd strip_comments].
     cbn [stmt_texts flat_map app]. f_equal. apply IH.
   - cbn [items]. rewrite stmt_texts_app. unfold item. rewrite stmt_texts_keep. cbn [produced rawp fst snd strip_comments].
